@@ -101,6 +101,7 @@ theorem established_kept {c c' : Cap} {a : Act} {id : Nat} (hs : step c a = some
       · rw [e]
       · exact absurd ((List.mem_erase_of_ne e).mpr ho) hn
     · split at hs <;> cases hs; exact absurd ho hn
+  case peerHalfClose k => split at hs <;> cases hs; exact absurd ho hn
   case setMax n => split at hs <;> cases hs; exact absurd ho hn
   case adjust k =>
     cases ht : takeAdj k c.pending with
@@ -397,6 +398,7 @@ theorem realCap_le_max {n₀ : Int} (hM : n₀ ≤ M) {c : Cap} (r : Reach n₀ 
       split at hs
       · split at hs <;> cases hs; simp only [semRelease, notify_rc]; exact ih
       · split at hs <;> cases hs; exact ih
+    case peerHalfClose k => split at hs <;> cases hs; exact ih
     case setMax n => split at hs <;> cases hs; exact setMaxCount_le_max c1.realCap n
     case adjust k =>
       cases ht : takeAdj k c1.pending with
@@ -553,6 +555,38 @@ example : obsViolation (obsOf (run (newCap 2) [.acquire 0, .acceptDone 0, .acqui
     .setMax 1, .adjust 0, .connClose 0])) = none ∧
     obsViolation { cur := M - 1, unitsHeld := 1, parked := 1, capNow := 2, unitWaiting := false, settled := true }
       = some "setmax:parked-shrink-not-applied" := by decide
+
+/-! ### Round 3 (seeded/C17-m5): a peer's half-close does not give the slot back -/
+
+/-- **slot_released_only_in_close** (regenerated on every run). The wrapper type `limitListenerConn`
+declares exactly one method, `Close` (every other `net.Conn` method is the embedded connection's and cannot
+touch the semaphore); the only functions of limitlistener.go that mention a connection's `release` /
+`releaseOnce` are `LimitListener.Accept` (which builds the connection and gives its own unit back on its error
+paths, translated: `accept_regenerated_from_source`) and `limitListenerConn.Close` (translated:
+`connClose_regenerated_from_source`). A new method on the wrapper (a `Read` that releases on EOF …) or a
+new user of these fields breaks this obligation until it is classified in the model. -/
+theorem slot_released_only_in_close :
+    Gen.FactsC17.extractionFailed = false ∧ Gen.FactsC17.connMethods = ["Close"] ∧
+    Gen.FactsC17.listenerMethods = ["Accept", "Close", "SetMaxConnection", "acquire", "release"] ∧
+    Gen.FactsC17.listenerOtherFuncs = ["NewLimitListener"] ∧
+    Gen.FactsC17.releaseUsers = ["LimitListener.Accept", "limitListenerConn.Close"] := by decide
+
+/-- **half_close_keeps_slot.** Whatever the peer does to an established connection — here: shutting down
+its sending side, so that the server's reads return EOF — is a no-op for the semaphore and the bookkeeping:
+the connection counts from `Accept` until its own `Close`. -/
+theorem half_close_keeps_slot {c c' : Cap} {id : Nat} (hs : step c (Act.peerHalfClose id) = some c') :
+    c' = c ∧ id ∈ c'.opened := by
+  simp only [step] at hs
+  split at hs <;> cases hs
+  rename_i h; exact ⟨rfl, h⟩
+
+/-- `Reach` histories include peer half-closes, so `http_inv`, `cap_holds`, `cap_holds_until_next_setmax`,
+`release_once`, `setmax_applied` … hold over them; in particular at the cap, with the first client
+half-closed and its handler still busy, a second `Accept` is held back (the scenario of seeded/C17-m5). -/
+example :
+    let c := run (newCap 1) [.acquire 0, .acceptDone 0, .acquire 1, .peerHalfClose 0]
+    c.opened = [0] ∧ c.inAccept = [] ∧ c.waiters.map (·.id) = [1] ∧ c.cur = M ∧
+    (run c [.connClose 0]).inAccept = [1] := by decide
 
 /-! ### Tie by translation (regenerated on every run, `notes/IR.md`) -/
 
